@@ -71,3 +71,12 @@ Print Assumptions C06_one_callback_at_a_time.
 Theorem C06_no_wait_overlaps : g_overlap (grun false g0 [GCurrent; GRestart; GCurrent]) = true.
 Proof. exact no_wait_overlaps. Qed.
 Print Assumptions C06_no_wait_overlaps.
+
+(* KNOWN FINDING C06-queued-at-link-loss: two blocks were received and queued, one was handed over, then the link is lost: stop() discards
+   what is still queued (so that it is not handled on the next connection, D44) - the second block, received completely, is never
+   handed to the application, however long the dispatcher runs. *)
+Theorem C06_stop_discards_queued_refuted :
+  let s := d_stop (drun true d0 [SPut; SSet; SDispatcher; SDispatcher; SDispatcher; SPut; SSet]) in
+  (d_delivered s = 1 /\ d_queue s = 0 /\ forall tr, Forall (fun a => a = SDispatcher) tr -> d_delivered (drun true s tr) = 1)%nat.
+Proof. exact stop_discards_queued. Qed.
+Print Assumptions C06_stop_discards_queued_refuted.
